@@ -92,7 +92,9 @@ Fixpoint compile_all (i : nat) (l : list sprog) : list cstage :=
 Inductive kind := KClient | KServer | KItem.
 
 (** Message ids >= 500 make the transport fail (client: the scripted server closes the
-    connection) / make handleRequest reject the message (server: batch count mismatch). *)
+    connection) / make handleRequest reject the message (server: batch count mismatch) /
+    make executeItem reject the item before any handler is looked up (batch item: it carries
+    a critical message extension; reason 8 = Feature Not Supported). *)
 Definition poison (m : Z) : bool := 500 <=? m.
 
 Definition reason_of (e : Z) : Z := if e <? 100 then e else 256.   (* kmipserver.Error reason, else General Failure *)
@@ -119,6 +121,7 @@ Definition ccore (k : kind) (script : list (option Z)) (c : cctx) (m : cmsg) (s 
            end
   | KItem =>
       (* executeItem: handler scripted by the answer number; an error comes with the empty item *)
+      if poison m then (Ok (Some (- (1 + m), 0), Some 8), s) else
       match scripted script n with
       | Some e => (Ok (Some (- (1 + m), 0), Some e), (n + 1, ent))
       | None => (Ok (Some (n * 1000 + m, 0), None), (n + 1, ent))
@@ -143,7 +146,7 @@ Definition obs_event (k : kind) (e : cevent) : list cevent :=
       match k with
       | KClient => if poison m then [] else [EvCore ([], None) m]
       | KServer => if poison m then [] else [e]
-      | KItem => [e]
+      | KItem => if poison m then [] else [e]
       end
   | _ => [e]
   end.
@@ -286,7 +289,7 @@ Definition row_nested_ok (mode : nat) (r : row_nested) : bool :=
   match r with
   | (mchain, ichain, script, tags, m, (oo, on, od, ot)) =>
       match c_run_nested (match mode with 1%nat => false | _ => true end) mchain ichain script (tags, None) m with
-      | (o, (n, _), t) => res_eqb ocresp_eqb o oo && (n =? on) && trace_ok t od ot
+      | (o, (n, _), t) => res_eqb ocresp_eqb o oo && (n =? on) && trace_ok (obs_trace KItem t) od ot
       end
   end.
 
